@@ -59,7 +59,7 @@ def layouts(N, tier, seed):
             for dt in dts:
                 k += 1
                 yield {'backend': 'flat', 'ext': L.FLAT_EXT[k % 4], 'offset': OFFSETS[(k // 3) % 4],
-                       'dtype': dt, 'nc': NCS[(k // 2) % 4], 'parts': parts, 'relative': k % 9 == 4, 'symlink': k % 9 == 7}
+                       'dtype': dt, 'nc': NCS[(k // 2) % 4], 'parts': parts, 'relative': k % 9 == 4, 'symlink': k % 9 == 7, 'stray': k % 9 == 2}
         for j, parts in enumerate(L.compositions(n)):
             if j % 3 == n % 3:
                 k += 1
@@ -200,7 +200,7 @@ def open_layout(lay, d):
     rate = 100.
     be = lay['backend']
     if be == 'flat':
-        paths = L.write_flat(d, A, lay['parts'], offset=lay['offset'], ext=lay['ext'])
+        paths = L.write_flat(d, A, lay['parts'], offset=lay['offset'], ext=lay['ext'], stray=bool(lay.get('stray')) and nc * dt.itemsize > 1)
         if lay.get('symlink'):
             # the sorting folder holds links to raw data stored elsewhere
             import os
